@@ -11,6 +11,7 @@ import numpy as np  # noqa: E402
 from nautilus.bounds import Union, Ellipsoid  # noqa: E402
 
 N = int(sys.argv[2]) if len(sys.argv) > 2 else 3
+ONLY = sys.argv[3] if len(sys.argv) > 3 else None     # dataset name prefix
 OPS = ['split', 'split_no', 'trim', 'sample']
 bad = []
 NPM = [0]
@@ -60,6 +61,12 @@ def datasets():
                          disc(rng, 10, 0.04, [2501.5, 600.])])
         out.append(('sparse+double{}'.format(sd), pts, 11, sd,
                     ['split', 'trim'], 5))
+    # extreme volumes: log-volumes far below / above the range of exp()
+    rng = np.random.default_rng(9)
+    base = np.vstack([rng.normal(size=(120, 3)), rng.normal(size=(120, 3)) + 8,
+                      rng.normal(size=(25, 3)) * 30 + 200])
+    for nm, sc in (('scale1e-110', 1e-110), ('scale1e+110', 1e110)):
+        out.append((nm, base * sc, 40, 3, ['split', 'trim', 'sample'], 3))
     return out
 
 
@@ -100,6 +107,8 @@ def check(u, tag, all_rows, trimmed):
 
 nwords = 0
 for (name, pts, npm, seed, ops, nmax) in datasets():
+    if ONLY is not None and not name.startswith(ONLY):
+        continue
     NPM[0] = min(npm, len(pts))
     for n in range(1, nmax + 1):
         for word in itertools.product(ops, repeat=n):
